@@ -30,10 +30,14 @@ theorem grows_sendSd (s : Stack) (es : List SDEntry) (d : Dest) : Grows s (s.sen
   · obtain ⟨o, h1, _⟩ := sendSd_cases s es d h
     exact ⟨_, h1.symm⟩
 
+theorem grows_flushTo (s : Stack) (es : List SDEntry) (d : Dest) : Grows s (s.flushTo es d) := by
+  unfold flushTo
+  exact (Grows.of_eq (s := s) (s' := { s with flushLog := s.flushLog ++ [(d, es)] }) rfl).trans (grows_sendSd _ _ _)
+
 theorem grows_queueSend (s : Stack) (e : SDEntry) (d : Dest) : Grows s (s.queueSend e d) := by
   unfold queueSend; simp only []
   split
-  · exact (grows_emit s _).trans (grows_sendSd _ _ _)
+  · exact (grows_emit s _).trans (grows_flushTo _ _ _)
   · split
     · split
       · exact ⟨[(s.loop.now, .queued d e)], by simp [appendCollector, newCollector, callLater, emit]⟩
